@@ -32,6 +32,7 @@ type c11Batch struct {
 type c11Case struct {
 	Kind    string        `json:"kind"` // merger | commit | e2e
 	Mode    string        `json:"mode"`
+	Init    string        `json:"init,omitempty"` // the mode the diamond was initialized with, when it is not the mode of the commit
 	Batches []c11Batch    `json:"batches"`
 	Judged  bool          `json:"judged"`
 	Refused bool          `json:"refused"`
@@ -100,7 +101,11 @@ func c11Run(cs *c11Case, r *gen.Rand) {
 		}
 		did := kid(r, 77)
 		dd := model.NewDiamondDescriptor(model.DiamondID(did), model.DiamondMode(c11Modes[cs.Mode]))
-		if _, err := core.CreateDiamond("repo", w.Stores(), core.DiamondDescriptor(dd), core.DiamondLogger(world.Nop)); err != nil {
+		ddInit := dd
+		if cs.Init != "" { // the mode is chosen when committing, whatever the diamond was initialized with
+			ddInit = model.NewDiamondDescriptor(model.DiamondID(did), model.DiamondMode(c11Modes[cs.Init]))
+		}
+		if _, err := core.CreateDiamond("repo", w.Stores(), core.DiamondDescriptor(ddInit), core.DiamondLogger(world.Nop)); err != nil {
 			panic(err)
 		}
 		// one generation per split, its batches as index files in order of first appearance
@@ -116,7 +121,7 @@ func c11Run(cs *c11Case, r *gen.Rand) {
 			w.PutSplitLists("repo", did, s, kid(r, int64(200+i)), c11Base, true, bySplit[s])
 		}
 		d := core.NewDiamond("repo", w.Stores(), core.DiamondDescriptor(dd), core.DiamondLogger(world.Nop))
-		if err := d.Commit(); err != nil {
+		if err := c11Commit(d); err != nil {
 			cs.Refused, cs.Err = true, err.Error()
 			return
 		}
@@ -134,7 +139,11 @@ func c11Run(cs *c11Case, r *gen.Rand) {
 		}
 		did := kid(r, 78)
 		dd := model.NewDiamondDescriptor(model.DiamondID(did), model.DiamondMode(c11Modes[cs.Mode]))
-		if _, err := core.CreateDiamond("repo", w.Stores(), core.DiamondDescriptor(dd), core.DiamondLogger(world.Nop)); err != nil {
+		ddInit := dd
+		if cs.Init != "" { // the mode is chosen when committing, whatever the diamond was initialized with
+			ddInit = model.NewDiamondDescriptor(model.DiamondID(did), model.DiamondMode(c11Modes[cs.Init]))
+		}
+		if _, err := core.CreateDiamond("repo", w.Stores(), core.DiamondDescriptor(ddInit), core.DiamondLogger(world.Nop)); err != nil {
 			panic(err)
 		}
 		cs.Batches = nil
@@ -168,7 +177,7 @@ func c11Run(cs *c11Case, r *gen.Rand) {
 		}
 		cs.Judged = c11Judged(cs.Batches)
 		d := core.NewDiamond("repo", w.Stores(), core.DiamondDescriptor(dd), core.DiamondLogger(world.Nop))
-		if err := d.Commit(); err != nil {
+		if err := c11Commit(d); err != nil {
 			cs.Refused, cs.Err = true, err.Error()
 		} else {
 			es, err := w.Entries("repo", d.BundleID)
@@ -188,6 +197,16 @@ func c11Run(cs *c11Case, r *gen.Rand) {
 			}
 		}
 	}
+}
+
+// a commit that panics (in one of its goroutines it would take the process down) is a commit that failed
+func c11Commit(d *core.Diamond) (err error) {
+	defer func() {
+		if p := recover(); p != nil {
+			err = fmt.Errorf("panic: %v", p)
+		}
+	}()
+	return d.Commit()
 }
 
 func c11Coq(cs *c11Case) string {
@@ -281,7 +300,7 @@ func init() {
 		c.CaseTy = "mcase"
 		c.Report = "report"
 		c.PerFile = 40
-		c.Rule = "sets of 1..8 splits over six shared paths with three possible contents (identical duplicates frequent), one or two file lists per split, a path sometimes listed twice by one split; upload times pairwise distinct per path (judged by the statement) or with ties (compared with the model only); every conflict mode; the merger is handed the file lists in several random arrival orders through the verif entry point, the same sets are committed through Diamond.Commit from split metadata written to the store, and real split uploads are committed and compared with a plain upload; non-trivial = at least two splits sharing a path with different contents, distinct by batches and mode"
+		c.Rule = "sets of 1..8 splits over six shared paths with three possible contents (identical duplicates frequent), one or two file lists per split, a path sometimes listed twice by one split; upload times pairwise distinct per path (judged by the statement) or with ties (compared with the model only); every conflict mode; the merger is handed the file lists in several random arrival orders through the verif entry point, the same sets are committed through Diamond.Commit from split metadata written to the store (the diamond initialized with the mode of the commit or with another one), and real split uploads are committed and compared with a plain upload; non-trivial = at least two splits sharing a path with different contents, distinct by batches and mode"
 		emit := func(cs *c11Case) {
 			nontriv := ""
 			byPath := map[string]map[string]bool{}
@@ -309,6 +328,7 @@ func init() {
 				if err := json.Unmarshal(raw, &cs); err != nil {
 					panic(err)
 				}
+				c.Pending(&cs)
 				c11Run(&cs, r)
 				emit(&cs)
 			}
@@ -326,11 +346,16 @@ func init() {
 					if k == 0 {
 						cs.Batches = bs
 					}
+					c.Pending(cs)
 					c11Run(cs, r)
 					emit(cs)
 				}
 				if i%3 == 0 {
 					cs := &c11Case{Kind: "commit", Mode: m, Batches: bs}
+					if r.Bool() {
+						cs.Init = c11ModeNames[r.Intn(4)]
+					}
+					c.Pending(cs)
 					c11Run(cs, r)
 					emit(cs)
 				}
@@ -342,6 +367,9 @@ func init() {
 		}
 		for i := 0; i < ne; i++ {
 			cs := &c11Case{Kind: "e2e", Mode: c11ModeNames[r.Intn(4)]}
+			if r.Bool() {
+				cs.Init = c11ModeNames[r.Intn(4)]
+			}
 			ns := r.Range(1, 4)
 			if i%3 == 0 {
 				ns = 1
@@ -355,6 +383,7 @@ func init() {
 				}
 				cs.Files = append(cs.Files, fs)
 			}
+			c.Pending(cs)
 			c11Run(cs, r)
 			emit(cs)
 		}
